@@ -140,7 +140,9 @@ def impl_run(parser, tokens):
     from pest.pairs import Pair, Pairs
     from pest.state import RuleFrame
 
-    pairs = [Pair(n, 0, len(n), RuleFrame(n, 0)) for n in tokens]
+    # only pair.name matters to parse_expr: every other pair is given an empty span (an operator or operand that matched
+    # the empty string, e.g. juxtaposition), which must change nothing
+    pairs = [Pair(n, 0, 0 if (i + len(tokens)) % 2 == 1 else len(n), RuleFrame(n, 0)) for i, n in enumerate(tokens)]
     stream = Pairs(pairs).stream()
     signal.signal(signal.SIGALRM, _on_alarm)
     signal.setitimer(signal.ITIMER_REAL, CASE_TIMEOUT_S)       # a parse that does not return is a finding, not a hang
@@ -858,7 +860,7 @@ def run(out: Outcome) -> None:
     }
     out.assumptions = [
         "observed through a PrattParser subclass whose four hooks build tuples from real Pair objects; "
-        "a stream is a real pest Stream over Pair(name, 0, len, RuleFrame(name, 0)); only pair.name matters to parse_expr",
+        "a stream is a real pest Stream over Pair(name, 0, len or 0, RuleFrame(name, 0)) - every other pair has an empty span; only pair.name matters to parse_expr",
         "a name declared in several tables is read by position, as the code does: prefix where an operand is expected; "
         "where an operator is expected postfix before infix; any name that is not a prefix operator is a primary in "
         "operand position.  Well-formedness of a stream is relative to this reading",
